@@ -346,5 +346,8 @@ Monitors(p, pre, a, obs, post) ==
 
 AllProps == {"C01", "C02", "C03", "C04", "C06", "C07", "C08", "C09"}
 \* tagged: "C06:ExactlyOneEffectiveOwner"
-Tagged(pre, a, obs, post, props) == UNION {{p \o ":" \o n : n \in Monitors(p, pre, a, obs, post)} : p \in props}
+\* a step on a closed connection sends nothing (the harness skips it): nothing to judge
+NotSent(pre, a) == "s" \in DOMAIN a /\ a.s \in Sessions /\ ~pre.sess[a.s].live /\ a.a # "Connect"
+Tagged(pre, a, obs, post, props) ==
+  IF NotSent(pre, a) THEN {} ELSE UNION {{p \o ":" \o n : n \in Monitors(p, pre, a, obs, post)} : p \in props}
 =============================================================================
